@@ -56,7 +56,7 @@ def rules(chk, db):
     ilrules.fix_decode(chk, db, 'FD')
     ilrules.float_bool(chk, db, 'FB')
     read_dispatch(chk, db, 'UE')
-    encrules.read_rules(chk, db, want=('LEN', 'GRD'))
+    encrules.read_rules(chk, db, want=('LEN', 'GRD', 'RST'))
     chk.rule('CO', 'wrapper decoders are composed of exactly the documented component encodings', minimum=30)
     encrules.composition(chk, db, 'CO', ('ReadPayload', 'Match'))
     chk.rule('NR.r', 'no run-time narrowing integral conversion in any ReadPayload (validation sees the full 64-bit length)', minimum=10)
@@ -67,6 +67,9 @@ def rules(chk, db):
     chk.rule('T', 'Ensure(n) succeeds exactly when n <= limit - pos, overflow-safe', minimum=2)
     for rec in ('nop::BufferReader', 'nop::PedanticBufferReader'):
         rwrules.check_buffer_class(chk, db, rec, {'T': 'T', 'G': None, 'E': None, 'C': None}, guard_required=False)
+    chk.rule('G', 'the checked buffer reader refuses a transfer that exceeds what remains (counted in bytes)', minimum=2)
+    chk.rule('E', 'refusal returns ReadLimitReached and has no effect', minimum=2)
+    rwrules.check_buffer_class(chk, db, 'nop::PedanticBufferReader', {'T': None, 'G': 'G', 'E': 'E', 'C': None})
     c16.rules(chk, db, prefix='BR.', only={'nop::BoundedReader'})
     # ... and the stream reader reports exhaustion instead of delivering bytes that are not in the source
     chk.rule('ST', 'stream reader primitives move exactly the requested bytes and report the stream state', minimum=3)
